@@ -392,6 +392,19 @@ func oracleC15(w *World, rec *BlockRecord, t *TxInfo) {
 	}
 	vb, va := ViewOf(t.Obs.Before), ViewOf(t.Obs.After)
 	blockTime := rec.Req.Time
+	// an account that comes into being inside the transaction (paid by the bank module through a precompile) is not in
+	// the before-view: for the code-less sink of a self-witnessing transaction the bank module's own events say what it
+	// was paid, and it can spend nothing - so it must exist afterwards and hold exactly that
+	if t.EthTx != nil && w.ByHash != nil && t.HasReceipt && !t.Rc.HasErr {
+		if snt := w.ByHash[t.EthTx.Hash()]; snt != nil && snt.Wit != nil && vb.Acc[snt.Wit.Sink] == nil {
+			if paid, bad := sinkTransferEvents(t.Res, snt.Wit.Sink); bad == "" && paid != 0 {
+				r.Count("o:c15_account_funded_in_tx_checked")
+				if va.Acc[snt.Wit.Sink] == nil || va.Balance(snt.Wit.Sink, BaseDenom).Cmp(new(big.Int).SetUint64(paid)) != 0 {
+					r.Violate("C15", "non_empty_account_deleted", map[string]string{"funded_in_tx": "true"}, "account %s was paid %d by the bank module inside the transaction (its events say so) and cannot spend, yet after the transaction it %s", snt.Wit.Sink.Hex(), paid, map[bool]string{true: "does not exist", false: "holds " + va.Balance(snt.Wit.Sink, BaseDenom).String()}[va.Acc[snt.Wit.Sink] == nil])
+				}
+			}
+		}
+	}
 	bt := blockTime.Unix()
 	for _, a := range vb.Addresses() {
 		b := vb.Acc[a]
